@@ -221,6 +221,8 @@ type gen struct {
 	// no response depends on the order in which the batch is served
 	conc bool
 	pre  []int
+	// scheduled groups: the later requests of a group mostly repeat the text of the first
+	sticky bool
 }
 
 func (g *gen) inPre(q string) bool {
@@ -238,7 +240,14 @@ func (g *gen) chance(pct int) bool {
 }
 
 func (g *gen) text() int {
+	if g.sticky && g.chance(75) {
+		return g.lastText
+	}
 	if g.chance(45) {
+		return g.lastText
+	}
+	if g.chance(18) { // one response key selected several times under variable-driven @include/@skip (sched.go)
+		g.lastText = mergeFirst + g.pick(len(catalogue)-mergeFirst)
 		return g.lastText
 	}
 	if g.chance(70) {
